@@ -166,6 +166,10 @@ def run(ctx, res):
                 f"rounds and a later round continues")
     res.samples = [S.hist_case_json(c) for c in hcases[:3]]
     res.stats = stats
+    # regenerated tie: whole-function skeletons of has_contest / consistent_sampling / assign_sample_nums / mvrs_to_data /
+    # set_p_values; lemmas identify their line-by-line reading with Sampling.v (coq/gen/GenProofs_sampling_skeletons.v)
+    from . import genarith
+    genarith.regenerate(ctx.pid, "sampling_skeletons", res)
     res.assumptions = ["p-value monotonicity is only tested here (oracle); its theorem is C10_p_monotone over the NonnegMean model",
                        "data-prefix is claimed for card-comparison/ONEAudit contests with use_style (the threshold filter); for "
                        "POLLING or use_style=False mvrs_to_data returns the whole multi-contest sample, which is not a prefix",
